@@ -278,7 +278,14 @@ class Ctx:
         elif c.expect == "finding":
             if r.state in REFUTED_STATES:
                 if r.replayed:
-                    self.report_violation(c.key or oname, c.what or r.message[:200],
+                    # the key is computed from the replayed counterexample when the harness classifies it: a counterexample in the
+                    # region of a known finding that fails for ANOTHER reason gets another key and is reported as a violation
+                    key = c.key or oname
+                    if c.keyfn:
+                        import inspect as _insp
+                        key = (c.keyfn(r.args, r.kwargs or {}, r.replay_out) if len(_insp.signature(c.keyfn).parameters) >= 3
+                               else c.keyfn(r.args, r.kwargs or {}))
+                    self.report_violation(key, (c.what if key == c.key else None) or r.message[:200],
                                           self._replay_record(harness, r, src))
                     self.oblige(oname, False, f"finding reproduced: {r.message[:200]}", kind="finding")
                     self.nontrivial.add(oname)
